@@ -512,6 +512,107 @@ func init() {
 				"GetStoreManager().GetStoreByName", "targetStore.CreateFamily", "targetFamily.doRollupWork", "version.CreateDeleteRollupFile",
 				"f.commitEditLog", "targetFamily.cleanReferenceFiles")))
 		}
+		// deleteObsoleteFiles: the directory listing must be taken BEFORE any of the three live-set collections
+		{
+			fd, err := need(fam, "family", "deleteObsoleteFiles")
+			if err != nil {
+				return "", err
+			}
+			ev := c02Events(fd, c02Keep("listDirFunc", "pendingOutputs.Range", "familyVersion.GetAllActiveFiles",
+				"familyVersion.GetLiveRollupFiles"))
+			il, first := -1, -1
+			for i, e := range ev {
+				if e == "listDirFunc" && il < 0 {
+					il = i
+				}
+				if e != "listDirFunc" && first < 0 {
+					first = i
+				}
+			}
+			fmt.Fprintf(&sb, "\n/-- does deleteObsoleteFiles list the family directory before it collects pending outputs / active versions' files / rollup files? -/\n")
+			fmt.Fprintf(&sb, "def listBeforeLive : Bool := %v\n", il >= 0 && first >= 0 && il < first)
+		}
+		// LRUCache.Walk: which end of the list it inspects, and that it stops at the first entry the callback rejects
+		{
+			fd, err := need(cache, "LRUCache", "Walk")
+			if err != nil {
+				return "", err
+			}
+			var shape []string
+			ast.Inspect(fd.Body, func(n ast.Node) bool {
+				switch x := n.(type) {
+				case *ast.ForStmt:
+					shape = append(shape, "for")
+				case *ast.CallExpr:
+					nm := exprName(x.Fun)
+					switch {
+					case strings.HasSuffix(nm, "evictList.Back"):
+						shape = append(shape, "evictList.Back")
+					case strings.HasSuffix(nm, "evictList.Front"):
+						shape = append(shape, "evictList.Front")
+					case nm == "fn" || nm == "c.removeElement":
+						shape = append(shape, nm)
+					}
+				case *ast.BranchStmt:
+					shape = append(shape, x.Tok.String())
+				}
+				return true
+			})
+			def("lruWalkShape", shape)
+		}
+		// the state the families of one store SHARE: the two counters live in storeVersionSet (not in
+		// familyVersion), and the reader cache is keyed by the table's file name alone (store-unique number)
+		{
+			fd, err := need(vs, "storeVersionSet", "newVersionID")
+			if err != nil {
+				return "", err
+			}
+			def("newVersionIDCalls", c02Events(fd, nil))
+			var owner []string
+			for _, d := range vs.Decls {
+				gd, ok := d.(*ast.GenDecl)
+				if !ok {
+					continue
+				}
+				for _, sp := range gd.Specs {
+					ts, ok := sp.(*ast.TypeSpec)
+					if !ok {
+						continue
+					}
+					st, ok := ts.Type.(*ast.StructType)
+					if !ok {
+						continue
+					}
+					for _, fld := range st.Fields.List {
+						for _, n := range fld.Names {
+							if n.Name == "nextFileNumber" || n.Name == "versionID" {
+								owner = append(owner, ts.Name.Name+"."+n.Name)
+							}
+						}
+					}
+				}
+			}
+			def("sharedCounters", owner)
+			var keys []string
+			for _, fn := range []string{"GetReader", "ReleaseReaders", "Evict"} {
+				fd, err := need(cache, "storeCache", fn)
+				if err != nil {
+					return "", err
+				}
+				ast.Inspect(fd.Body, func(n ast.Node) bool {
+					c, ok := n.(*ast.CallExpr)
+					if !ok {
+						return true
+					}
+					nm := exprName(c.Fun)
+					if (nm == "c.cache.Get" || nm == "c.cache.Add" || nm == "c.cache.Remove" || nm == "cache.Get" || nm == "cache.Add" || nm == "cache.Remove") && len(c.Args) > 0 {
+						keys = append(keys, fn+":"+nm[strings.LastIndex(nm, ".")+1:]+"("+c02Text(c.Args[0])+")")
+					}
+					return true
+				})
+			}
+			def("cacheKeys", keys)
+		}
 		fmt.Fprintf(&sb, "\n/-- does `removeVersion` re-check `ref == 0` under the family lock before deleting? -/\n")
 		fmt.Fprintf(&sb, "def removeVersionRechecksRef : Bool := %v\n", c02RemoveRechecks(removeSteps))
 		return sb.String(), nil
